@@ -92,6 +92,21 @@ def asgModel (c : Ctx) (be : Mode) (form d : Nat) (e : Expr) (st : Store) : Opti
     some (((List.range nh).map fun h => if h = d then r.getD nh [] else r.getD h []) ++ [r.getD d []])
   | _ => none
 
+/-- the same three kinds of statement with the assignment loop at width 1 (`assignW c 1`): by `C07.mode_irrelevant`
+every width that divides the degree gives the same store, so this is the model's answer whatever mode the compiler
+resolved – used for shapes outside the acceptance rules the mode table (`mode`, `compiles`) was measured on (`asgx`). -/
+def asgModelW (c : Ctx) (form d : Nat) (e : Expr) (st : Store) : Option Store :=
+  let zeros := List.replicate c.n 0
+  match form with
+  | 0 | 1 => some (assignW c 1 d e st)
+  | 2 | 3 => some (assignW c 1 st.length e (st ++ [zeros]))
+  | 4 =>
+    let nh := st.length
+    let st' := st ++ [st.getD d []]
+    let r := assignW c 1 nh e st'
+    some (((List.range nh).map fun h => if h = d then r.getD nh [] else r.getD h []) ++ [r.getD d []])
+  | _ => none
+
 def asgSpec (c : Ctx) (form d : Nat) (e : Expr) (st : Store) : Option Store :=
   let v := pointwise c st e
   match form with
@@ -114,13 +129,16 @@ def degClass (deg : Nat) : String :=
 
 /-- hypotheses and expected answer of one `bool(e)` (the statement of `C08.eq_iff` / `neq_iff` / `bool_iff_nonzero`):
 `none` if the hypotheses of the theorem do not hold of the line (generator obligation). -/
-def ebWant (c : Ctx) (m : Mode) (st : Store) (e : Expr) : Option Bool :=
+def ebWantX (c : Ctx) (st : Store) (e : Expr) (accepted : Bool) : Option Bool :=
   let idx := (List.range c.nmod).flatMap fun cm => (List.range c.deg).map fun i => (cm, i)
   let (ok, want) := match e with
     | .eq x y => (admB c st x && admB c st y, idx.all fun (cm, i) => evalExact c st x cm i == evalExact c st y cm i)
     | .neq x y => (admB c st x && admB c st y, idx.any fun (cm, i) => evalExact c st x cm i != evalExact c st y cm i)
     | e => (admB c st e, idx.any fun (cm, i) => evalExact c st e cm i != 0)
-  if !(ok && storeWfB c st && compiles m c.l c.deg e) then none else some want
+  if !(ok && storeWfB c st && accepted) then none else some want
+
+def ebWant (c : Ctx) (m : Mode) (st : Store) (e : Expr) : Option Bool :=
+  ebWantX c st e (compiles m c.l c.deg e)
 
 /-! ### `bsweep`: a batch of boolean conversions on stores that differ in one row (harness/expr_rt.hpp `sweep`).
 Nothing new is modelled: evaluation `k` is the `ebool` / `ppeq` / `ppne` / `pbool` line on `sweepStore … k`. -/
@@ -221,6 +239,34 @@ def exprHandlersP : List (String × PHandler) := [
         let s ← asgSpec c form d e st
         pure (impl == ((mode m c.l e).code : Int) :: flat s)
       | _ => none }),
+  -- a statement whose shape the acceptance rules of tools/gen_expr.py reject but the compiler accepted (a library change
+  -- made it compile): inside the claim of C07 ("any arithmetic expression the library accepts at compile time").  The
+  -- hypotheses are those of `C07.assign_correct` minus the predicted compile condition (acceptance is OBSERVED here: the
+  -- statement was compiled and run; <mode> is the mode the compiler resolved, every supported degree is a multiple of
+  -- its width or the statement would not have compiled); the expected store is the exact coefficient-wise meaning.
+  ("asgx", {
+    run := fun a => match natsOf a with
+      | w :: be :: nmod :: deg :: form :: d :: md :: rest => do
+        let (c, _) ← ctxOf w be nmod deg
+        let (e, st) ← treeAndStore c rest
+        if !e.arith then none else
+        let r ← asgModelW c form d e st
+        let aliased := (Expr.leafList e).contains d
+        pure { model := flat r, specOk := true,
+               cls := s!"new-shape:form{form}:be{be}:mode{md}:depth{Expr.depth e}:" ++
+                      (if aliased then "aliased" else "distinct") ++ ":" ++ degClass deg }
+      | _ => none,
+    spec := fun a impl => match natsOf a with
+      | w :: be :: nmod :: deg :: form :: d :: md :: rest => do
+        let (c, _) ← ctxOf w be nmod deg
+        let (e, st) ← treeAndStore c rest
+        let m ← Mode.ofCode md
+        if !(storeWfB c st && admB c st e && e.arith && deg % eltCount c.l m == 0) then none else
+        let s ← asgSpec c form d e st
+        pure (impl == flat s)
+      | _ => none,
+    why := fun _ _ => "a shape outside the generator's acceptance rules that the compiler accepts: the stored words are not " ++
+                      "the exact coefficient-wise meaning of the expression as written" }),
   ("ebool", {
     run := fun a => match natsOf a with
       | w :: be :: nmod :: deg :: kind :: rest => do
@@ -243,6 +289,33 @@ def exprHandlersP : List (String × PHandler) := [
         | [_, r] => pure (r == (if want then 1 else 0))
         | _ => pure false
       | _ => none }),
+  -- a boolean conversion whose shape the acceptance rules of tools/gen_expr.py reject but the compiler accepted (see `asgx`):
+  -- the hypotheses of `C08.eq_iff` / `neq_iff` / `bool_iff_nonzero` with the compile condition OBSERVED (the mode the compiler
+  -- resolved is an argument); model = `expr::operator bool` evaluated in that mode
+  ("eboolx", {
+    run := fun a => match natsOf a with
+      | w :: be :: nmod :: deg :: kind :: md :: rest => do
+        let (c, _) ← ctxOf w be nmod deg
+        let (e, st) ← treeAndStore c rest
+        let m ← Mode.ofCode md
+        let r ← exprToBoolM c m st e
+        let cl := match e with
+          | .eq x y => "eq:" ++ diffClass c st x y
+          | .neq x y => "neq:" ++ diffClass c st x y
+          | e => "bool:" ++ diffClass c st e (.sub (.leaf 0) (.leaf 0))
+        pure { model := [if r then 1 else 0], specOk := true,
+               cls := s!"new-shape:be{be}:mode{md}:k{kind}:" ++ cl ++ ":" ++ degClass deg }
+      | _ => none,
+    spec := fun a impl => match natsOf a with
+      | w :: be :: nmod :: deg :: _kind :: md :: rest => do
+        let (c, _) ← ctxOf w be nmod deg
+        let (e, st) ← treeAndStore c rest
+        let m ← Mode.ofCode md
+        let want ← ebWantX c st e (deg % eltCount c.l m == 0)
+        pure (impl == [if want then 1 else 0])
+      | _ => none,
+    why := fun _ _ => "a comparison shape outside the generator's acceptance rules that the compiler accepts: the answer is not " ++
+                      "the whole-polynomial comparison of the two sides as written" }),
   ("pbool", {
     run := fun a => match natsOf a with
       | w :: be :: nmod :: deg :: h :: nh :: words => do
